@@ -209,6 +209,12 @@ class FunctorPool:
                 self.run_event.wait()
 
             self.pool._sending_work = False
+            try:
+                # wake-up token without payload: the consumer may already be blocked waiting for a result that
+                # will never come (it entered the wait while _sending_work was still True)
+                self.pool._results_queue.put((None, None), block=False)
+            except queue.Full:
+                pass  # there is something to read, so the consumer is not blocked
 
     def __init__(self, workers: List[BaseFunctorWorker[T, R]], context: Optional[BaseContext] = None,
                  work_queue_maxsize: Optional[Union[int, float]] = 1.0,
@@ -340,6 +346,8 @@ class FunctorPool:
             while self._sending_work or finished_cnt < self._data_cnt:
                 indices, chunks = self._get_results()
                 for res_i, res_chunk in zip(indices, chunks):
+                    if res_i is None:
+                        continue  # wake-up token of a feeding thread (this or an earlier call)
                     for ch in buffer(res_i, res_chunk):
                         finished_cnt += 1
                         for x in ch:
@@ -367,6 +375,8 @@ class FunctorPool:
 
                 indices, chunks = self._get_results()
                 for res_i, res_chunk in zip(indices, chunks):
+                    if res_i is None:
+                        continue  # wake-up token of a feeding thread (this or an earlier call)
                     finished_cnt += 1
                     for x in res_chunk:
                         yield x
